@@ -86,7 +86,8 @@ func fullMenu(prepVals []any) func(h *H, c call) []answer {
 		case pFallback:
 			return []answer{{val: fvPtr}, {err: errFb}, {val: nil}}
 		default:
-			return []answer{{action: "x"}, {action: ""}, {action: flyt.DefaultAction}, {err: errPost}}
+			// (a failing post may well return an action next to its error: the run still reports none)
+			return []answer{{action: "x"}, {action: ""}, {action: flyt.DefaultAction}, {err: errPost}, {action: "ignored-because-post-failed", err: errPost}}
 		}
 	}
 }
